@@ -267,7 +267,3 @@ contract(FF, "Framer.exitAll", "C06,C03", params=dict(_e.params), requires=list(
              "trigger=lambda f: f.entered))",
              "c06_alternation(not self.altbad)",
          ])
-
-import os as _os
-if _os.environ.get("C06_LEMMAS"):          # DEBUG ONLY (removed before hand-over)
-    exec(open(_os.environ["C06_LEMMAS"]).read())
